@@ -7,7 +7,7 @@ LEXERS = {
     "json": ("json", True, False, 2, ["", "﻿", "/*", "\"", "[1, "], ["", "*/", "\"", " "]),
     "simple": ("simple", True, False, 1, ["", "﻿", "simpl", "\\"], ["", "e ", "\n"]),
     "test": ("test", False, False, 0, ["", "/*", "test", "%q\n", "Z\\u00"], ["", "*/", "-->", "\n%q"]),
-    "tm": ("tm", True, True, 0, ["", "a\n", "{", "{\"", "/", "'", "%", "# c\n", "{/*"], ["", "}", "\"}", "/", "\n", "*/}"]),
+    "tm": ("tm", True, True, 0, ["", "a\n", "{", "{\"", "/", "'", "%", "# c\n", "{/*", "{'\\"], ["", "}", "\"}", "/", "\n", "*/}", "} a", "'} a"]),
     "js": ("js", True, False, 0, ["", "﻿", "/*", "`", "a /", "'", "<", "0x"], ["", "*/", "`", "/g", "'"]),
 }
 
@@ -48,6 +48,10 @@ def jobs(ctx):
                 combos.append((0, 0, 2, 0))
             for pi in range(1, min(len(pres), 3 if d == "js" else 4)):
                 combos.append((pi, min(pi, len(sufs) - 1), 1, 0))
+            if d == "tm":
+                # a token after a code block: its line and column depend on what skipAction counted inside the block
+                combos.append((pres.index("{"), sufs.index("} a"), 1, 0))
+                combos.append((pres.index("{'\\"), sufs.index("'} a"), 1, 0))
         else:
             for pi in range(len(pres)):
                 for si in range(len(sufs)):
